@@ -66,3 +66,24 @@ let () =
       of_result (fun (out, d) -> VT [VB out; (match d with None -> VNone | Some f -> of_fields f)])
         (Model.c09_cli_hd (vi p) (vi a) (vi b) (vi n) (vpoint g) (hm m) sha256 ripemd160 (vb path) (vb x)
            (vbool xp) (vbool dump) (vbool pr)) | _ -> raise (Bad "arity"))
+;
+  register "c09_ser_deser" (function [p; a; b; n; g; m; key; cc; depth; fp; child; testnet] ->
+      of_result (fun (s, f) -> VT [VB s; of_fields f])
+        (Model.c09_ser_deser (vi p) (vi a) (vi b) (vi n) sha256 (vkey key) (vb cc) (vbz depth) (vb fp) (vbz child) (vbool testnet))
+      | _ -> raise (Bad "arity"));
+  register "c09_ser_get_xpub" (function [p; a; b; n; g; m; key; cc; depth; fp; child; testnet] ->
+      of_result (fun (s, y) -> VT [VB s; VB y])
+        (Model.c09_ser_get_xpub (vi p) (vi a) (vi b) (vi n) (vpoint g) sha256 (vkey key) (vb cc) (vbz depth) (vb fp) (vbz child) (vbool testnet))
+      | _ -> raise (Bad "arity"));
+  register "c09_ser_derive" (function [p; a; b; n; g; m; key; cc; depth; fp; child; testnet; path] ->
+      of_result (fun (s, y) -> VT [VB s; VB y])
+        (Model.c09_ser_derive (vi p) (vi a) (vi b) (vi n) (vpoint g) (hm m) sha256 ripemd160 (vkey key) (vb cc) (vbz depth) (vb fp)
+           (vbz child) (vbool testnet) (vb path))
+      | _ -> raise (Bad "arity"));
+  register "c09_deser_ser_deser" (function [p; a; b; n; g; m; x] ->
+      of_result (fun (s, f) -> VT [VB s; of_fields f])
+        (Model.c09_deser_ser_deser (vi p) (vi a) (vi b) (vi n) sha256 (vb x)) | _ -> raise (Bad "arity"));
+  register "c09_master_chain" (function [p; a; b; n; g; m; seed; testnet; path] ->
+      of_result (fun ((s, y), z) -> VT [VB s; VB y; VB z])
+        (Model.c09_master_chain (vi p) (vi a) (vi b) (vi n) (vpoint g) (hm m) sha256 ripemd160 (vb seed) (vbool testnet) (vb path))
+      | _ -> raise (Bad "arity"))
